@@ -35,7 +35,7 @@ for d in sorted(glob.glob(f"{VERIF}/seeded/*/")):
     if m.get("neutralised"):
         continue
     items.append((m["id"], m["breaks_property"], d + "patch.diff", "seeded"))
-out_path = f"{VERIF}/selftest/sensitivity.json"
+out_path = os.environ.get("SENS_OUT", f"{VERIF}/selftest/sensitivity.json")
 results = json.load(open(out_path)) if os.path.exists(out_path) else {}
 head = sh("git -C /repo rev-parse --short HEAD").stdout.strip()
 vhead = sh(f"git -C {VERIF} rev-parse --short HEAD").stdout.strip()
